@@ -14,6 +14,7 @@ BITS = {"lib/bit_stream_reader.c": ["peek_bits", "read_bits", "read_bit"]}
 BITSPEC = "peek_bits/read_bits/read_bit: specification stub over a symbolic byte string with cursor (BITS_SPEC; refinement shown by C01 bits.*)"
 TREE_UNITS = "lib/lh1_decoder.c:increment_for_code,make_group_leader,increment_node_freq,alloc_group,free_group"
 PARTNAME = {1: "lock-step with LZHUF", 2: "tree/count/leaf-map consistency", 4: "group consistency", 8: "free-group list",
+            16: "group consistency: same group iff same count", 32: "group consistency: group_leader and num_groups",
             14: "all consistency clauses", 15: "all clauses"}
 
 
@@ -48,7 +49,7 @@ def inv(n, lim, parts, tier, timeout, tag=""):
 
 def rebuild(n, lim, parts, tier, timeout):
     return dict(name="rebuild.n%d.p%d" % (n, parts), src="C02/rebuild.c", entry="harness_rebuild", defines=sc(n, lim) + ["PARTS=%d" % parts],
-                unwind=2 * n + 1, unwindset=rb_unwind(n), timeout=timeout, tier=tier, mem_gb=4, units=["lib/lh1_decoder.c:reconstruct_tree,init_groups,alloc_group"],
+                unwind=2 * n + 1, unwindset=rb_unwind(n), timeout=timeout, tier=tier, mem_gb=4 if n < 5 else 6, units=["lib/lh1_decoder.c:reconstruct_tree,init_groups,alloc_group"],
                 bounds="NUM_CODES=%d (scaled), limit %d: ARBITRARY invariant-satisfying state with root count == limit, one reconstruct_tree vs LZHUF reconst(); "
                        "asserted here: %s" % (n, lim, PARTNAME[parts]))
 
@@ -62,7 +63,7 @@ HARNESSES = [
     inv(4, 32, 1, "both", 300), inv(4, 32, 2, "both", 300), inv(4, 32, 4, "both", 400), inv(4, 32, 8, "both", 300),
     inv(4, 32768, 1, "thorough", 1800, ".real"), inv(4, 32768, 2, "thorough", 1800, ".real"),
     inv(4, 32768, 4, "thorough", 1800, ".real"), inv(4, 32768, 8, "thorough", 1800, ".real"),
-    inv(5, 48, 1, "thorough", 1800), inv(5, 48, 2, "thorough", 1800), inv(5, 48, 4, "thorough", 1800), inv(5, 48, 8, "thorough", 1800),
+    inv(5, 48, 1, "thorough", 1800), inv(5, 48, 2, "thorough", 1800), inv(5, 48, 16, "thorough", 1800), inv(5, 48, 32, "thorough", 1800), inv(5, 48, 8, "thorough", 1800),
     dict(name="walk.n4", src="C02/inv.c", entry="harness_walk", defines=sc(4, 32) + ["WALK_HARNESS", "BITS_SPEC"],
          rename_defs=dict(BITS, **{"lib/lh1_decoder.c": ["increment_for_code"]}), unwind=9, unwindset={"read_code.0": 4, "harness_walk.1": 4}, timeout=120,
          units=["lib/lh1_decoder.c:read_code"], bounds="NUM_CODES=4: arbitrary invariant-satisfying tree, symbolic 2-byte bit string, any alignment, any end of data",
@@ -77,7 +78,7 @@ HARNESSES = [
          bounds="NUM_CODES=4, limit 32: arbitrary invariant-satisfying state with ANY root count 4..32, arbitrary symbol: rebuild called iff root count == limit, before the increment",
          stubs=["reconstruct_tree: recording stub"]),
     rebuild(3, 16, 15, "both", 200), rebuild(4, 32, 1, "both", 450), rebuild(4, 32, 14, "both", 450),
-    rebuild(5, 48, 1, "thorough", 1800), rebuild(5, 48, 14, "thorough", 1800),
+    rebuild(5, 48, 1, "thorough", 1800),
     dict(name="rebuild_pre.n4", src="C02/rebuild.c", entry="harness_rebuild_pre", defines=sc(4, 32), unwind=9, timeout=120, tier="thorough",
          bounds="NUM_CODES=4: invariant with root count == limit implies the weaker precondition (leaf entries only) that C09 lh1.rebuild uses"),
     dict(name="rebuild_step.n3", src="C02/rebuild.c", entry="harness_rebuild_step", defines=sc(3, 16), unwind=7, unwindset=rb_unwind(3), timeout=1800, tier="thorough",
@@ -94,17 +95,14 @@ HARNESSES = [
          unwindset={"lha_lh1_read.0": 13}, flags=["--arrays-uf-always"], timeout=200, units=["lib/lh1_decoder.c:lha_lh1_read,output_byte"],
          bounds="real constants: arbitrary 4 KiB window and write position; one command: any literal, or any copy of length 3..12 at any distance 0..4095 (self-overlap, ring seam); failures of either read",
          stubs=["read_code: arbitrary symbol 0..313 or failure (walk.*, inv.*)", "read_offset: arbitrary 12-bit distance or failure (offset)"]),
-    dict(name="copy.c60", src="C02/copy.c", defines=["MAXCOUNT=60"], rename_defs={"lib/lh1_decoder.c": ["read_code", "read_offset"]},
-         unwindset={"lha_lh1_read.0": 61}, flags=["--arrays-uf-always"], timeout=1800, tier="thorough", mem_gb=6, units=["lib/lh1_decoder.c:lha_lh1_read,output_byte"],
-         bounds="as copy.c12 with all copy lengths 3..60",
+    dict(name="copy.c20", src="C02/copy.c", defines=["MAXCOUNT=20"], rename_defs={"lib/lh1_decoder.c": ["read_code", "read_offset"]},
+         unwindset={"lha_lh1_read.0": 21}, flags=["--arrays-uf-always"], timeout=1800, tier="thorough", mem_gb=6, units=["lib/lh1_decoder.c:lha_lh1_read,output_byte"],
+         bounds="as copy.c12 with copy lengths 3..20",
          stubs=["read_code: arbitrary symbol 0..313 or failure (walk.*, inv.*)", "read_offset: arbitrary 12-bit distance or failure (offset)"]),
-] + [
-    dict(name="copy.c60.pos%d%s" % (p0, tag), src="C02/copy.c", defines=["MAXCOUNT=60", "POS0=%d" % p0], rename_defs={"lib/lh1_decoder.c": ["read_code", "read_offset"]},
-         unwindset={"lha_lh1_read.0": 61}, flags=fl, timeout=600, mem_gb=6, units=["lib/lh1_decoder.c:lha_lh1_read,output_byte"],
-         bounds="real constants: arbitrary window content, write position %d (concrete), any literal or any copy of length 3..60 at any distance 0..4095" % p0,
-         stubs=["read_code: arbitrary symbol 0..313 or failure (walk.*, inv.*)", "read_offset: arbitrary 12-bit distance or failure (offset)"])
-    for p0, tag, fl in [(0, "", []), (4090, "", []), (0, ".uf", ["--arrays-uf-always"])]
-] + [
+    dict(name="copy.c28", src="C02/copy.c", defines=["MAXCOUNT=28"], rename_defs={"lib/lh1_decoder.c": ["read_code", "read_offset"]},
+         unwindset={"lha_lh1_read.0": 29}, flags=["--arrays-uf-always"], timeout=1800, tier="thorough", mem_gb=6, units=["lib/lh1_decoder.c:lha_lh1_read,output_byte"],
+         bounds="as copy.c12 with copy lengths 3..28",
+         stubs=["read_code: arbitrary symbol 0..313 or failure (walk.*, inv.*)", "read_offset: arbitrary 12-bit distance or failure (offset)"]),
     dict(name="copy.init", src="C02/copy.c", entry="harness_init", rename_defs={"lib/lh1_decoder.c": ["read_code", "read_offset"]},
          unwindset={"memset.0": 4098}, timeout=120, units=["lib/lh1_decoder.c:init_ring_buffer"], bounds="all 4096 window positions (symbolic index)"),
     # 6. H02.params
